@@ -632,6 +632,8 @@ func checkC08(p *Prog, r *Report) {
 	checkNoNilVersusEmptyLists(p, r, kp, "x/aol/types", "x/did/types", "x/pnft/types")
 	checkNoUnseparatedCompositeMapKeys(p, r, kp, "x/aol", "x/did", "x/pnft")
 	checkPnftClassDeleteGuard(p, r, kp)
+	// the export goes through the per-denom lister: what it shows of a token is what the single-item view shows
+	pnftViewsAgree(p, r, kp)
 	checkPnftHandlersWriteExportedStateOnly(p, r, kp)
 	// ---------------- D5 order independence ----------------
 	for _, mod := range []string{"x/aol", "x/did", "x/pnft", "x/burn"} {
